@@ -37,7 +37,7 @@ def compare_terms(found_terms, exp, what=""):
 def run(chk):
     E = LossEnv(chk.repo)
     chk.files = E.w.files
-    thorough = chk.tier == "thorough"
+    thorough = chk.full
     chk.rule("C13.R1", "system terms == weighted composition (dyn: sum over equations; others: sum over unknowns of the "
                        "single-network term) for every weight specification; total == sum of terms", floor=12)
     chk.rule("C13.R4", "any number of equations combined with any number of unknowns", floor=4)
